@@ -23,4 +23,5 @@ for d in sorted(glob.glob(os.path.join(V, "seeded", "*"))):
     mp = os.path.join(d, "meta.json")
     if not os.path.exists(mp): continue
     meta = json.load(open(mp)); name = "seeded/" + os.path.basename(d); r = res.get((name, "quick"))
-    print("| %s | %s | %s | %s | %s |" % (os.path.basename(d), meta["property"], meta.get("needs_to_manifest", ""), "pass" if r and r.get("repo_tests_pass") else "?", cell(r)))
+    verdict = ("no longer property-breaking: " + meta["superseded"]) if meta.get("superseded") else cell(r)
+    print("| %s | %s | %s | %s | %s |" % (os.path.basename(d), meta["property"], meta.get("needs_to_manifest", ""), "pass" if r and r.get("repo_tests_pass") else "?", verdict))
